@@ -169,6 +169,20 @@ def single_faults(ser, detached, rng, other_algs, sig_stride: int = 1, char_samp
                         d2 = b"\x00" + d
                     return _put_bytes(tv, "sig", i, d2, m)
                 yield ("extend.sig", "sig[%d] %s" % (i, how), fn)
+            # the same mathematical signature in another encoding: R || S re-encoded as an ASN.1 DER SEQUENCE (what X.509 / TLS
+            # use; JWS demands the fixed-width concatenation), and DER with the halves swapped
+            for how in ("der", "der-swapped"):
+                def fn(tv, i=i, how=how):
+                    d, m = _seg_bytes(tv, "sig", i)
+                    if d is None or len(d) not in (64, 96, 132):
+                        return False
+                    from cryptography.hazmat.primitives.asymmetric.utils import encode_dss_signature
+                    half = len(d) // 2
+                    r_, s_ = int.from_bytes(d[:half], "big"), int.from_bytes(d[half:], "big")
+                    if how == "der-swapped":
+                        r_, s_ = s_, r_
+                    return _put_bytes(tv, "sig", i, encode_dss_signature(r_, s_), m)
+                yield ("reencode.sig", "sig[%d] as %s" % (i, how), fn)
     # character-level faults on the encoded text
     for seg, i in segs:
         t = tv0.get(seg, i)
